@@ -1,6 +1,7 @@
 package gowp
 
 import (
+	"fmt"
 	"go/types"
 	"strings"
 )
@@ -134,6 +135,9 @@ func (e *Engine) escape(st *State, v *Val) {
 		}
 	}
 	if e.mentionsPrivate(st, t) {
+		if traceInline {
+			fmt.Printf("PRIVACY DROPPED: value %s (type %v) escapes\n", t, v.Ty)
+		}
 		st.priv = nil
 	}
 }
@@ -148,6 +152,9 @@ func (e *Engine) escapeStore(st *State, target *Addr, valueTerm string) {
 		return
 	}
 	if e.mentionsPrivate(st, valueTerm) {
+		if traceInline {
+			fmt.Printf("PRIVACY DROPPED: %s stored into %s\n", valueTerm, target.Ref)
+		}
 		st.priv = nil
 	}
 }
